@@ -111,6 +111,8 @@ class Agent:
                 tag = rx.hmac96(alg, ka, d)
                 if mac == "flip":
                     tag = bytes([tag[0] ^ 1]) + tag[1:]
+                elif isinstance(mac, dict):
+                    tag = near_mac(tag, mac)
             d = d[:pos] + tag + d[pos + 12:]
         return d[:len(d) - truncate] if truncate else d
 
@@ -121,6 +123,35 @@ class Agent:
         kw.setdefault("flag_auth", False)
         kw.setdefault("flag_priv", False)
         return self.reply(cfg, req, [(list(oid), ("counter32", counter))], ptype="report", **kw)
+
+
+def near_mac(tag, x):
+    """the correct MAC with the structured difference x (spec/Forgeries.tla NearMacs); never equal to tag"""
+    t = bytearray(tag)
+    kind, i, j, k = x["kind"], x["i"], x["j"], x["k"]
+    if kind == "bits":
+        t[i] ^= 1 << (i % 8)
+    elif kind == "pair":
+        t[i] ^= 1 << ((i + j) % 8)
+        t[j] ^= 1 << ((i + j) % 8)
+    elif kind == "sum":
+        t[i] = (t[i] + 1) % 256
+        t[j] = (t[j] - 1) % 256
+    elif kind == "tri":
+        t[i] ^= 1
+        t[j] ^= 2
+        t[k] ^= 3
+    elif kind == "rot":
+        t = t[k:] + t[:k]
+    elif kind == "rev":
+        t = t[::-1]
+    elif kind == "head":
+        t = t[:k] + bytearray(12 - k)
+    elif kind == "tail":
+        t = bytearray(12 - k) + t[12 - k:]
+    if bytes(t) == bytes(tag):          # degenerate (e.g. a palindromic MAC): make it differ
+        t[5] ^= 0x10
+    return bytes(t)
 
 
 def other_id(ids):
